@@ -1,6 +1,7 @@
 import VlsModel.Model.Enforcement
 import VlsModel.Gen.FnEnforce
 import VlsModel.Gen.FnChannel
+import VlsModel.Gen.FnEnforceNew
 import VlsModel.Lemmas.FnGen
 import VlsModel.Lemmas.EnforcementFn
 /-
@@ -315,6 +316,27 @@ theorem C01_fn_release_commitment_secret {K S : Type} (pt : Nat → Nat)
           simp
     · have b' : ¬ (1 ≤ n) := b
       simp [b, b']
+
+/-! ### `EnforcementState::new` (validator.rs:696): the state every channel starts from -/
+
+/-- a model channel read as ALL thirteen fields of `EnforcementState` (`initial_holder_value` is not part of the model) -/
+def toESfull (c : Chan) (v : Nat) : Gen.FnEnforceNew.EnforcementState Nat Nat Nat :=
+  { next_holder_commit_num := c.next, next_counterparty_commit_num := c.cpCommit,
+    next_counterparty_revoke_num := c.cpRevoke, current_counterparty_point := c.curPt,
+    previous_counterparty_point := c.prevPt, current_holder_commit_info := c.cur,
+    current_counterparty_signatures := c.cur, next_holder_commit_info := c.nextInfo.map (fun i => (i, i)),
+    current_counterparty_commit_info := c.curInfo, previous_counterparty_commit_info := c.prevInfo,
+    channel_closed := c.closed, initial_holder_value := v,
+    counterparty_secrets := c.secrets.map (fun st => { old_secrets := st.map (fun e => (e.1.map UInt8.toNat, e.2)) }) }
+
+/-- the generated `EnforcementState::new` is the model's fresh ready channel (counters 0, nothing staged, not closed,
+    an empty secret store), which is what the model's `setup` installs -/
+theorem C01_fn_enforcement_state_new (v : Nat) (F : Nat → Secrets.Bytes → Secrets.Bytes) :
+    Gen.FnEnforceNew.EnforcementState.new v = toESfull { slot := .ready } v
+    ∧ (chanStep F {} .setup).c = { slot := .ready } := by
+  constructor
+  · rfl
+  · rfl
 
 -- non-vacuity: a channel with `next = 3` and a staged commitment
 example : Validator.set_next_holder_commit_num strict () (toES { slot := .ready, next := 3, cur := some 7 }) 4 9 9
